@@ -135,6 +135,12 @@ func (c *runCtx) guarded(oracle, trigger string, what any, f func()) (panicked b
 
 func panicClass(line string) string {
 	switch {
+	case strings.Contains(line, "(harness) command did not finish"):
+		return "hang"
+	case strings.Contains(line, "all goroutines are asleep"):
+		return "deadlock"
+	case strings.Contains(line, "concurrent map"):
+		return "fatal:concurrent-map-access"
 	case strings.Contains(line, "nil pointer dereference"):
 		return "panic:nil-deref"
 	case strings.Contains(line, "index out of range"):
